@@ -2,7 +2,10 @@ module verif/rcheck
 
 go 1.23
 
-require golang.org/x/tools v0.29.0
+require (
+	github.com/yuin/gopher-lua v0.0.0-20220504180219-658193537a64
+	golang.org/x/tools v0.29.0
+)
 
 require (
 	golang.org/x/mod v0.22.0 // indirect
